@@ -16,7 +16,7 @@ TEXT = {
             "the property lists is a theorem on the model: decoding (C01_decode_route / _any), object import "
             "(C01_import_route), default (C01_default_route), mutation (C01_mutation_route + C05_cmd_on_chain). The Python "
             "classes are tied to the model by the correspondence (five routes per value).",
-            "Coq proof by induction on ty + CRep invariant; vm_compute correspondence", "5 (C01)"),
+            "Coq proof by induction on ty + CRep invariant; vm_compute correspondence + translation of tree.py's tree builders (subtree_fill_*) with machine-checked equivalence to the model", "5 (C01)"),
     "C02": ("Theorem C02_constructed (full statement): for EVERY type (uintN, boolean, bit/byte vectors and lists, packed and "
             "composite vectors/lists, containers, unions, any nesting) and every well-formed value, the backing tree the "
             "constructor builds serialises (getter-by-gindex reads, chunk slicing, bitlist delimiter bit, mix-in reads, "
@@ -109,7 +109,7 @@ TEXT = {
             "own defaults, as are the data chunks of bit-, byte- and packed vectors (C12_chunks_navigable); a constructor call "
             "with omitted fields builds the tree of the value with zero values there (C12_omitted_fields). The Python "
             "classmethods are tied by the correspondence (every fixed-structure gindex up to depth 3).",
-            "Coq proof by induction on ty + correspondence", "5 (C12)"),
+            "Coq proof by induction on ty + correspondence + translation of tree.py's tree builders (subtree_fill_*) with machine-checked equivalence to the model", "5 (C12)"),
     "C13": ("Theorems (Coq, every width w>=0, every operand): constructor accepts exactly [0,2^w); coercing operators "
             "(+ - * // % & | ^, both operand orders, same-type or plain-int operand) return the exact mathematical result "
             "or ValueError / ZeroDivisionError, never a wrapped or widened value; other-width operands refused; bitwise "
